@@ -213,8 +213,8 @@ func renderPackageLock(recs []crec, l lay) rendered {
 		for k := 1; k <= n; k++ {
 			r := recs[k-1]
 			key := "node_modules/" + r.Name
-			if p := place(k, l.Sect); p != 0 {
-				key = "node_modules/" + recs[p-1].Name + "/node_modules/" + r.Name
+			for p := place(k, l.Sect); p != 0; p = place(p, l.Sect) {
+				key = "node_modules/" + recs[p-1].Name + "/" + key
 			}
 			if !first && l.Blank > 0 {
 				pk = append(pk, kv{"", blankN(l.Blank)})
@@ -236,7 +236,7 @@ func renderPackageLock(recs []crec, l lay) rendered {
 					o = append(o, kv{"", blankN(l.Blank)})
 				}
 				var nested obj
-				if len(children[k]) > 0 && parent == 0 {
+				if len(children[k]) > 0 {
 					nested = tree(k)
 				}
 				o = append(o, kv{recs[k-1].Name, npmEntry(recs[k-1], k, l, true, nested)})
@@ -402,7 +402,7 @@ func renderPackagesLock(recs []crec, l lay) rendered {
 	switch {
 	case l.Sect == 2:
 		fw = append(fw, kv{"net8.0", b}, kv{"net6.0", a})
-	case l.Sect == 1:
+	case l.Sect == 1 || l.Sect == 3:
 		fw = append(fw, kv{"net6.0", a}, kv{"net8.0", b})
 	default:
 		fw = append(fw, kv{"net6.0", a})
